@@ -596,7 +596,7 @@ func init() {
 			"every shape with header in {none,0,1,2 cells} and up to 3 rows over {separator,0,1,2 cells} with texts from a pipe/backslash/entity/LF/space/wide-character alphabet and a random alignment assignment; " +
 			"every alignment assignment {unset,L,R,C} on column 0 and each column of four fixed hostile grids with <= 2 columns; every atom of the alphabet in first/last/padded position; random tables to 6x6 with random alignments; " +
 			"a case is non-trivial when the table has a column and a header (rendering is attempted); distinct = distinct (view, outcome, output)",
-		Exhaustive: "shapes (header x row-sequence up to length 3); all 4^(ncols+1) alignment assignments on four fixed grids with 1 and 2 columns; every alphabet atom (hostile and interpretable) in 7 field positions; zero-value rows in all 8 first/last count patterns of 3 small tables; all 29 rune items and 12 core texts x item kinds in 7 field positions; render-time alignment callbacks: owner kind x time x written column x 2 value sequences",
+		Exhaustive: "shapes (header x row-sequence up to length 3); all 4^(ncols+1) alignment assignments on four fixed grids with 1 and 2 columns; every alphabet atom (hostile and interpretable) in 7 field positions; zero-value rows in all 8 first/last count patterns of 3 small tables; all 29 rune items and 12 core texts x item kinds in 7 field positions; render-time alignment callbacks: owner kind x time x written column x 2 value sequences; column-property histories: chain depth d <= 5 x position of the alignment x position of the entry touched x {re-set, remove}",
 		Gen: func(r *RNG, tier string) []json.RawMessage {
 			// NewRNG(seed) starts seed k at seed 1's state advanced by k-1 steps, so
 			// the streams of different seeds re-synchronise after a few cases and
